@@ -5,5 +5,5 @@ TRUSTED = []
 ASSUMPTIONS = []
 HARNESSES = [
     dict(name="read_at", file="read_at.c", label="proved",
-         loops=["stdio_read_at"], timeout=300),
+         loops=["stdio_read_at"], timeout=120),
 ]
